@@ -190,7 +190,7 @@ func sizePick(rng *vh.Rng, big bool) int {
 // suiteRespPath (C03): scripted raw-TCP backend -> real ReverseProxy + forwarder (agent child)
 // -> real stand-alone proxy -> client.
 func suiteRespPath(e *vh.Env) {
-	e.Result.Rule = "scripted backend wire responses (final status 200..599, repeated Set-Cookie and other end-to-end fields, hop-by-hop fields, bodies 0/1/2/4095..4097/32 KiB/1 MiB, Content-Length or chunked with chunk sizes incl. a 1-byte first chunk, 0..5 declared and 0..2 undeclared trailers, interim 100/102/103 responses, HEAD/204/304) through real agent code and the real proxy binary, every fourth case with session tracking on; the client's parse is compared with the script; non-trivial = response with at least two trailers, an interim response, or a 1-byte first chunk"
+	e.Result.Rule = "scripted backend wire responses (final status 200..599, repeated Set-Cookie and other end-to-end fields, hop-by-hop fields, bodies 0/1/2/4095..4097/32 KiB/1 MiB and one of 12 MiB (thorough: 48 MiB), Content-Length or chunked with chunk sizes incl. a 1-byte first chunk, 0..5 declared and 0..2 undeclared trailers, interim 100/102/103 responses, HEAD/204/304) through real agent code and the real proxy binary, every fourth case with session tracking on; the client's parse is compared with the script; non-trivial = response with at least two trailers, an interim response, or a 1-byte first chunk"
 	be := newRawBackend()
 	rig := startProxy()
 	defer rig.stop()
@@ -226,6 +226,13 @@ func suiteRespPath(e *vh.Env) {
 				s.hdr = append(s.hdr, [2]string{rng.Pick([]string{"Keep-Alive", "Proxy-Authenticate", "Upgrade"}), "x"})
 			}
 			s.body = rng.Bytes(sizePick(rng, e.Thorough()))
+			if i == 5 || (i == 9 && e.Thorough()) {
+				s.method, s.status = "GET", 200
+				s.body = rng.Bytes(12<<20 + 3) // larger than any plausible in-memory limit on the way
+				if i == 9 {
+					s.body = rng.Bytes(48<<20 + 1)
+				}
+			}
 			oneByteFirst := false
 			if rng.Chance(65) {
 				s.chunks = []int{}
@@ -336,7 +343,7 @@ func suiteRespPath(e *vh.Env) {
 
 // suiteReqPath (C02): raw client bytes -> real proxy binary -> real agent code -> recording raw backend.
 func suiteReqPath(e *vh.Env) {
-	e.Result.Rule = "raw client requests (methods GET/POST/PUT/PATCH/DELETE/HEAD/OPTIONS, escaped paths incl. %2F %41 // and UTF-8 escapes, queries without ';', repeated and mixed-case header names, hop-by-hop fields, bodies 0..3 MiB around 4096/32 KiB/1 MiB with Content-Length or chunked framing) through the real proxy binary and real agent code to a recording backend; non-trivial = request with a body of at least 4096 bytes, an escaped path or a repeated header"
+	e.Result.Rule = "raw client requests (methods GET/POST/PUT/PATCH/DELETE/HEAD/OPTIONS, escaped paths incl. %2F %41 // and UTF-8 escapes, queries without ';', repeated and mixed-case header names, X-Forwarded-*/Forwarded/Via fields, hop-by-hop fields, bodies 0..3 MiB around 4096/32 KiB/1 MiB with Content-Length or chunked framing) through the real proxy binary and real agent code to a recording backend; non-trivial = request with a body of at least 4096 bytes, an escaped path or a repeated header"
 	be := newRawBackend()
 	rig := startProxy()
 	defer rig.stop()
@@ -380,6 +387,16 @@ func suiteReqPath(e *vh.Env) {
 			}
 			if rng.Chance(40) {
 				hdr = append(hdr, [2]string{"User-Agent", "verif-client/1.0"})
+			}
+			if rng.Chance(30) {
+				// a request that already passed a load balancer: end-to-end fields that proxy libraries like to rewrite
+				for k := 1 + rng.Intn(3); k > 0; k-- {
+					fw := [][2]string{{"X-Forwarded-For", "203.0.113.7, 198.51.100.2"}, {"X-Forwarded-Proto", "https"}, {"X-Forwarded-Host", "public.example"},
+						{"Forwarded", "for=203.0.113.7;proto=https;host=public.example"}, {"Via", "1.1 lb.example"}, {"X-Real-Ip", "203.0.113.7"}}[rng.Intn(6)]
+					if len(valuesOf(hdr, fw[0])) == 0 {
+						hdr = append(hdr, fw)
+					}
+				}
 			}
 			var body []byte
 			chunked := false
